@@ -245,7 +245,7 @@ def ref_real(f):
 class C06(PropBase):
     pid = "C06"
     coq_dirs = ["Base", "Gen", "C06"]
-    translators = ["c06_cfi_ops.py"]
+    translators = ["c06_cfi_ops.py", "unwind_consts.py"]
     bins = ["c06"]
     rule = ("case = one STACK CFI INIT record + delta records, a lookup address, callee registers and a memory image, walked "
             "(A) by SymbolFile::walk_frame with a mock FrameWalker or (B) by one walk_stack step through the real "
